@@ -220,3 +220,10 @@ Print Assumptions C16_stream_refines_window_illformed_refuted.
 Theorem C16_encbuffer_refines_encode : forall x, encode_via_buffer x = encode x.
 Proof. exact encbuffer_refines_encode. Qed.
 Print Assumptions C16_encbuffer_refines_encode.
+
+(** The decision-critical functions of the anchored code have exactly the decisions the source tie knows about
+    (go2coq manifests, regenerated from /repo on every check; statement in SourceManifest.v). *)
+From Kardia Require Import C16.SourceManifest.
+Theorem C16_source_manifest : C16_source_manifest_statement.
+Proof. exact C16_source_manifest_proof. Qed.
+Print Assumptions C16_source_manifest.
